@@ -1,6 +1,7 @@
 package main
 
 import (
+	"encoding/json"
 	"errors"
 	"fmt"
 	"os"
@@ -160,6 +161,14 @@ func oddObjects() []oddObj {
 			return struct{ F interface{} }{cur}
 		}()},
 		{"slice of maps of slices", struct{ F []interface{} }{[]interface{}{map[string]interface{}{"a": []interface{}{map[string]interface{}{"b": []interface{}{1, 2}}}}, []interface{}{[]interface{}{3}}}}},
+		{"[]byte holding JSON text", []byte(`{"F": 1, "G": [1, 2]}`)},
+		{"[]byte holding other text", []byte("F = 1")},
+		{"json.RawMessage", json.RawMessage(`{"F": 2}`)},
+		{"string holding JSON text", `{"F": 3}`},
+		{"*[]byte", func() interface{} { b := []byte(`{"F": 1}`); return &b }()},
+		{"*map", func() interface{} { m := map[string]interface{}{"F": 1}; return &m }()},
+		{"time.Time", tm},
+		{"[2]struct", [2]struct{ F int }{{1}, {2}}},
 		{"self-referencing struct pointer", func() interface{} {
 			type node struct {
 				F    int
@@ -576,6 +585,8 @@ func (p *c08) pokeUnprepared(o *Outcome, ev *c08Eval) {
 			return
 		}
 	}
+	_, _, desc := doDump(ev.e)
+	p.check(o, desc, "Dump after a failed Prepare")
 }
 
 // prepareAndPoke prepares text and exercises every entry point on it.
@@ -930,7 +941,41 @@ func (p *c08) Run(c *verifsim.Chooser, st *Stats, render bool) *Outcome {
 		}
 		n := 1 + c.Intn(6)
 		var hist []string
+		curText := sc.Text
 		for i := 0; i < n; i++ {
+			if c.Intn(6) == 1 {
+				// the host's user edits the filter: new text into the exported
+				// Script field of the same evaluator, Prepare again
+				nt, how := editedScript(c, curText)
+				if c.Intn(8) == 1 {
+					nt, how = p.mutate(c, curText)
+					how = "hostile mutation " + how
+				}
+				ev.e.Script = nt
+				if c.Intn(4) == 1 {
+					opt = !opt
+				}
+				err, esc := doPrepare(ev.e, opt)
+				hist = append(hist, fmt.Sprintf("Script = (%s); Prepare -> %v", how, err))
+				sample["history"], sample["script_after_edit"] = hist, nt
+				st.fault("script-edited-and-prepared-again")
+				if p.check(o, esc, "Prepare after the Script field was changed ("+how+")") {
+					return o
+				}
+				if err != nil {
+					p.pokeUnprepared(o, ev)
+					return o
+				}
+				curText = nt
+				_, _, desc := doDump(ev.e)
+				if p.check(o, desc, "Dump after the Script field was changed ("+how+")") {
+					return o
+				}
+				p.usable(o, ev, curText, opt, "script-edit")
+				if len(o.V) > 0 {
+					return o
+				}
+			}
 			var obj interface{}
 			od := ""
 			if c.Intn(3) == 1 {
@@ -989,7 +1034,7 @@ func (p *c08) Run(c *verifsim.Chooser, st *Stats, render bool) *Outcome {
 				return o
 			}
 			if r.Failed && c.Intn(2) == 1 {
-				p.usable(o, ev, sc.Text, opt, classifyErr(r))
+				p.usable(o, ev, curText, opt, classifyErr(r))
 				if len(o.V) > 0 {
 					return o
 				}
